@@ -1,6 +1,7 @@
 import GitBugModel.Model.Lamport
 import GitBugModel.Model.Dag
 import GitBugModel.Props.C02
+import GitBugModel.Model.MemClockCAS
 /-!
 # C05 — logical clocks only move forward and dominate everything seen
 -/
@@ -157,5 +158,120 @@ example : (run { mem := none, file := .absent } [.inc, .wit 10, .inc, .reopen, .
     = [.ok 2, .ok 10, .ok 11, .ok 0, .ok 11, .ok 11, .ok 12] := by decide
 example : Synced { mem := some 4, file := .value 4 } ∧ ({ mem := some 4, file := .value 4 } : PClock).file ≠ .garbage := by
   simp [Synced]
+
+
+/-! ## the in-memory clock under concurrency (compare-and-swap loop of `MemClock.Witness`) -/
+
+namespace CAS
+open GitBugModel.MemClockCAS
+
+/-- what holds in every reachable state: a value loaded earlier is not above the counter, a
+returned `Witness(v)` left the counter at or above `v`, a returned `Increment` got a value the
+counter has reached -/
+def Inv (s : St) : Prop :=
+  ∀ t ∈ s.threads, match t with
+    | .loaded _ cur => cur ≤ s.counter
+    | .doneW v => v ≤ s.counter
+    | .doneI got => got ≤ s.counter
+    | _ => True
+
+theorem stepT_mono (c : Nat) (t : T) (ht : match t with | .loaded v cur => cur < v | _ => True) :
+    c ≤ (stepT c t).1 := by
+  cases t with
+  | inc => simp [stepT]
+  | idle v => simp only [stepT]; split <;> simp
+  | loaded v cur =>
+    simp only [stepT]
+    split
+    · rename_i h; simp at ht ⊢; omega
+    · simp
+  | doneW v => simp [stepT]
+  | doneI g => simp [stepT]
+
+/-- the loaded value is below the witnessed one (else `Witness` would have returned) -/
+def Loaded (s : St) : Prop := ∀ t ∈ s.threads, match t with | .loaded v cur => cur < v | _ => True
+
+theorem step_loaded (s : St) (i : Nat) (h : Loaded s) : Loaded (cstep s i) := by
+  unfold cstep
+  cases hi : s.threads[i]? with
+  | none => simpa using h
+  | some t =>
+    simp only
+    intro t' ht'
+    rcases List.mem_or_eq_of_mem_set ht' with hm | rfl
+    · exact h t' hm
+    · cases t with
+      | inc => simp [stepT]
+      | idle v =>
+        by_cases hv : v ≤ s.counter
+        · simp [stepT, hv]
+        · simp [stepT, hv]; omega
+      | loaded v cur =>
+        by_cases hc : s.counter = cur
+        · simp [stepT, hc]
+        · simp [stepT, hc]
+      | doneW v => simp [stepT]
+      | doneI g => simp [stepT]
+
+theorem step_counter_mono (s : St) (i : Nat) (h : Loaded s) : s.counter ≤ (cstep s i).counter := by
+  unfold cstep
+  cases hi : s.threads[i]? with
+  | none => simp
+  | some t =>
+    simp only
+    have hm : t ∈ s.threads := List.mem_of_getElem? hi
+    exact stepT_mono s.counter t (by have := h t hm; cases t <;> simp_all)
+
+theorem step_inv (s : St) (i : Nat) (hl : Loaded s) (h : Inv s) : Inv (cstep s i) := by
+  have hmono := step_counter_mono s i hl
+  unfold cstep at hmono ⊢
+  cases hi : s.threads[i]? with
+  | none => simpa using h
+  | some t =>
+    simp only [hi] at hmono ⊢
+    intro t' ht'
+    rcases List.mem_or_eq_of_mem_set ht' with hm | rfl
+    · have := h t' hm
+      cases t' <;> simp_all <;> omega
+    · cases t with
+      | inc => simp [stepT]
+      | idle v =>
+        by_cases hv : v ≤ s.counter
+        · simp [stepT, hv]
+        · simp [stepT, hv]
+      | loaded v cur =>
+        by_cases hc : s.counter = cur
+        · simp [stepT, hc]
+        · simp [stepT, hc]
+      | doneW v =>
+        have hm : T.doneW v ∈ s.threads := List.mem_of_getElem? hi
+        have := h _ hm
+        simpa [stepT] using this
+      | doneI g =>
+        have hm : T.doneI g ∈ s.threads := List.mem_of_getElem? hi
+        have := h _ hm
+        simpa [stepT] using this
+
+/-- `witness_cas_linear`: under every interleaving of any number of goroutines incrementing and
+witnessing one in-memory clock, the counter never decreases, every `Witness(v)` that has returned
+left it at or above `v` for good, and every value an `Increment` returned has been reached. -/
+theorem witness_cas_linear (s : St) (sched : List Nat) (hl : Loaded s) (h : Inv s) :
+    s.counter ≤ (crun s sched).counter ∧ Inv (crun s sched) ∧ Loaded (crun s sched) := by
+  induction sched generalizing s with
+  | nil => exact ⟨Nat.le_refl _, h, hl⟩
+  | cons i rest ih =>
+    have := ih (cstep s i) (step_loaded s i hl) (step_inv s i hl h)
+    simp only [crun, List.foldl_cons] at this ⊢
+    exact ⟨Nat.le_trans (step_counter_mono s i hl) this.1, this.2⟩
+
+/-- increments are atomic adds: two `Increment`s never return the same value (each returns the
+counter right after its own add, and the counter never decreases) -/
+theorem increment_returns_new (c : Nat) : (stepT c .inc).2 = .doneI (c + 1) ∧ (stepT c .inc).1 = c + 1 := by
+  simp [stepT]
+
+example : crun { counter := 1, threads := [.idle 5, .idle 3, .inc] } [0, 1, 2, 1, 0, 0, 0, 1] =
+    { counter := 5, threads := [.doneW 5, .doneW 3, .doneI 2] } := by decide
+
+end CAS
 
 end GitBugModel.Props.C05
